@@ -305,19 +305,19 @@ def client_verdicts(rng, node, desc, nodespec, rec):
     return dichecks, imports
 
 
-def strict_json(desc):
+def report_text(desc):
+    """the report as the interface would put it on the wire (json.dumps as frappy.protocol.interface does: NaN / Infinity
+    are written as such); None when it cannot be serialised at all.  Whether the text is strict JSON is judged in Lean."""
     try:
-        s = json.dumps(desc, allow_nan=False)
-        json.loads(s)
-        return True
+        return json.dumps(desc)
     except Exception:
-        return False
+        return None
 
 
 def run_node(rng, node, box, nodespec, classes, cfgs=None):
     """-> dict for the driver, or {'errors': ...}"""
     desc1 = node.describe()
-    strict = strict_json(desc1)
+    strict = report_text(desc1)
     rep1 = report_json(desc1)
     steps, acts = sweep_steps(rng, node, nodespec)
     rec = None
@@ -451,7 +451,7 @@ def to_requests(data):
     base = {'p': PID, 'node': rec['node'], 'oracle': rec['oracle']}
     return [dict(base, k='describe'),
             dict(base, k='exchange', steps=[{'req': s['req'], 'drv': s['drv']} for s in rec['steps']] if data.get('generated') else []),
-            dict(base, k='judge', report1=data['report1'], report2=data['report2'], classes=data['classes'],
+            dict(base, k='judge', text=data['strict'], report1=data['report1'], report2=data['report2'], classes=data['classes'],
                  steps=[{'req': s['req'], 'obs': s['obs'], 'client': s.get('client', False)} for s in rec['steps']],
                  activates=[{'m': a['m'], 'a': a['a'], 'reply': a['reply'], 'subsChanged': a['subsChanged']}
                             for a in data['activates'] if not a['bare']],
@@ -557,9 +557,6 @@ def evaluate(ctx, res, label, case, data, model, exch, judge):
         m = data['report1'][0]
         res.samples.append({'node': label, 'module': m['name'],
                             'described': [[a['name'], a['kind'], a['readonly'], a['constant']] for a in m['accs']][:8]})
-    if not data['strict']:
-        res.violations.append({'sig': 'C06:report-not-strict-json', 'what': f'the report of {label} is not strict JSON',
-                               'case': case})
     if ctx.model_ok and norm_report(model['report']) != norm_report(data['report1']):
         mm = [(a, b) for a, b in zip(norm_report(model['report']), norm_report(data['report1'])) if a != b][:1]
         res.disagreements.append({'case': case, 'model': mm[0][0] if mm else [m['name'] for m in model['report']],
@@ -585,6 +582,10 @@ def evaluate(ctx, res, label, case, data, model, exch, judge):
         elif what == 'undescribed-subscribed':
             acts = [a for a in data['activates'] if not a['bare']]
             detail = acts[idx] if idx < len(acts) else None
+        elif what == 'report-not-strict-json':
+            text = data['strict']
+            pos = min([text.find(t) for t in ('NaN', 'Infinity') if t in text] or [0]) if text else 0
+            detail = 'the report cannot be serialised' if text is None else text[max(0, pos - 120):pos + 40]
         elif what == 'class-props':
             detail = {'described': next((c for c in data['classes'] if c['m'] == name), None),
                       'class chain': next((m.get('mro') for m in rec['node']['modules'] if m['name'] == name), None),
